@@ -2,9 +2,7 @@ package main
 
 import "verifharness/lib"
 
-func genRandom(r *lib.Rand, tier string) History  { panic("todo") }
 func genFarm(r *lib.Rand, tier string) History    { panic("todo") }
 func genService(r *lib.Rand, tier string) History { panic("todo") }
-func execRandom(h History) lib.Case               { panic("todo") }
 func execFarm(h History) lib.Case                 { panic("todo") }
 func execService(h History) lib.Case              { panic("todo") }
